@@ -213,6 +213,13 @@ func (runInfo *runInfoStruct) callExpr() {
 
 	runInfo.rv = nilValue
 
+	if callExpr.Go {
+		// the goroutine gets the arguments as they are now
+		for i := range args {
+			args[i] = detachValue(args[i])
+		}
+	}
+
 	// useCallSlice lets us know to use CallSlice instead of Call because of the format of the args
 	if useCallSlice {
 		if callExpr.Go {
